@@ -263,7 +263,7 @@ func init() {
 			{"parse", "x509.ParseCertificate("}, {"notAfterStart", O + ".notAfterStart != nil"}, {"notAfterLimit", O + ".notAfterLimit != nil"},
 			{"acceptOnlyCA", O + ".acceptOnlyCA"}, {"rejectExpired", O + ".rejectExpired"},
 			{"rejectUnexpired", O + ".rejectUnexpired"}, {"rejectExtIds", "len(" + O + ".rejectExtIds)"},
-			{"extKeyUsages", "len(" + O + ".extKeyUsages)"}, {"verify", "$elem0.Verify("}, {"chainsEquivalent", "chainsEquivalent("}})},
+			{"extKeyUsages", "len(" + O + ".extKeyUsages)"}, {"verify", "$elem0.Verify("}, {"noChains", "len($Verify)==0"}, {"chainsEquivalent", "chainsEquivalent("}})},
 		// ---- chainsEquivalent
 		{"chainsLenMismatch", semReach(cc, "chainsEquivalent", "func",
 			func(r canonReturn) bool { return !r.inLoop && len(r.results) == 1 && r.results[0] == "false" }, nil,
